@@ -638,7 +638,7 @@ def rule_mem_hsem(ctx, R):
             for s in range(8):
                 for modmem in (0, 1, 3):
                     for modcond in ((0, 13, 14, 15) if name == 'ISTORE' else (0,)):
-                        imms = X.MEM_IMMS if s == d or (d + s + modmem) % (3 if getattr(ctx, 'tier', 'quick') == 'thorough' else 7) == 0 else X.MEM_IMMS[5:7]
+                        imms = (X.MEM_IMMS_CONST if (modmem == 0 and (d % 3 == 0 or getattr(ctx, 'tier', 'quick') == 'thorough')) else X.MEM_IMMS[:3]) if (s == d and name != 'ISTORE') else (X.MEM_IMMS if (d + s + modmem) % (3 if getattr(ctx, 'tier', 'quick') == 'thorough' else 7) == 0 else X.MEM_IMMS[5:7])
                         for imm in imms:
                             n += 1
                             mod = modmem | (modcond << 4)
